@@ -3,11 +3,13 @@ package props
 import (
 	"bufio"
 	"fmt"
+	"io"
 	"os"
 	"path/filepath"
 	"reflect"
 	"strconv"
 	"strings"
+	"testing/iotest"
 
 	"pault.ag/go/debian/control"
 	"pault.ag/go/debian/dependency"
@@ -329,7 +331,11 @@ func expectedRecordDump(t reflect.Type, expect map[string]string) []string {
 
 // parseTyped calls the real typed entry point for a kind.
 func parseTyped(kind, text string) (reflect.Value, error) {
-	rd := bufio.NewReader(strings.NewReader(text))
+	return parseTypedFrom(kind, strings.NewReader(text))
+}
+
+func parseTypedFrom(kind string, src io.Reader) (reflect.Value, error) {
+	rd := bufio.NewReader(src)
 	switch kind {
 	case "DSC":
 		d, err := control.ParseDsc(rd, "")
@@ -434,6 +440,16 @@ func init() {
 			got := dumpGoValue(v.FieldByIndex(f.Index))
 			if got != want {
 				return fmt.Sprintf("FAIL field %s: got %s want %s", name, got, want)
+			}
+		}
+		// a source that fails part-way (an I/O error, a truncated compressed stream - anything but a
+		// clean io.EOF): the typed parsers report it instead of returning a shortened document
+		for _, cut := range []int{len(text) / 3, len(text) * 2 / 3, len(text) - 1} {
+			if cut <= 0 || cut >= len(text) {
+				continue
+			}
+			if _, err := parseTypedFrom(kind, io.MultiReader(strings.NewReader(text[:cut]), iotest.ErrReader(errInjected))); err == nil {
+				return fmt.Sprintf("FAIL the source failed after %d of %d bytes (not io.EOF) and the parser returned a document without an error", cut, len(text))
 			}
 		}
 		return "ok"
@@ -621,6 +637,18 @@ func fileEntryLaw(kind, text string) string {
 		return "ok"
 	}
 	spellings := []string{abs, rel, "./" + rel, filepath.Dir(rel) + "/./sub/../" + name, dir + "//" + name}
+	os.Mkdir(filepath.Join(dir, "sub"), 0o755)
+	// the control file reached through a symbolic link whose target lies elsewhere under another
+	// name (a pool / object store): the handle is where the caller said, next to the listed files
+	if pool, err := os.MkdirTemp("", "verif-docpool-"); err == nil {
+		defer os.RemoveAll(pool)
+		obj := filepath.Join(pool, "0001")
+		os.WriteFile(obj, []byte(text), 0o644)
+		os.Remove(abs)
+		if os.Symlink(obj, abs) != nil {
+			os.WriteFile(abs, []byte(text), 0o644)
+		}
+	}
 	for _, sp := range spellings {
 		switch kind {
 		case "DSC":
